@@ -124,6 +124,10 @@ func runScn(r *Report, sc *Scn, splitIdx, splitK int) {
 	if v := os.Getenv("VERIF_MAXSTEPS"); v != "" {
 		fmt.Sscan(v, &opts.MaxSteps)
 	}
+	if os.Getenv("VERIF_UNBOUNDED") != "" {
+		// experiment switch (not used by registered commands): explore every schedule
+		opts.Unbounded, opts.UseCache = true, true
+	}
 	if !opts.Unbounded && !opts.UseCache {
 		opts.UseCache = true
 	}
